@@ -85,9 +85,8 @@ def wide_ops(ctx: Ctx, table: list) -> list[dict]:
     # must answer with a verdict or a library error, whatever the account looks like
     import c06
     for row in rows:
-        if gen.cc_of(row) not in c06.NAT:
-            continue
-        for i in range(8 if ctx.quick else 60):
+        # (countries without an algorithm too: the request must simply change nothing there)
+        for i in range((8 if ctx.quick else 60) if gen.cc_of(row) in c06.NAT else (2 if ctx.quick else 12)):
             t = gen.valid_iban(row, rng, ("letters", "random", "high", "low")[i % 4])
             iban(t, vb=True, entries=("iban.new", "iban.validate"))
     # national validation through every kind of German bank: one bank code per Bundesbank method id
